@@ -102,3 +102,28 @@ Definition push_step (s : push) (o : pop) : push * list pout :=
   end.
 
 Definition push_poll (s : push) : ppoll := mkPoll None (Some (ps_writable s)).
+
+(* ---- push0_set_send_buf_len with the repair of finding push-resize-overtakes-blocked ----
+   (same shape as fix 7c956d7 for PAIR): after nni_lmq_resize the blocked senders move into the
+   buffer, in order, while there is room, and their sends complete.  [push_step] above keeps the
+   pinned text (the wait list is left alone); [push_step_r fr] is the step for either text,
+   fr = Gen/Consts.v C06_PUSH_RESIZE_ADMITS_FIXED; it differs from push_step only on an in-range
+   NNG_OPT_SENDBUF when fr = true. *)
+Definition push_resize_admit (s : push) (n : nat) : push * list pout :=
+  let wq1 := firstn n (ps_wq s) in
+  let room := n - length wq1 in
+  let adm := firstn room (ps_aq s) in
+  let wq' := wq1 ++ map snd adm in
+  let aq' := skipn room (ps_aq s) in
+  let s1 := mkPush (ps_pl s) wq' n aq' (ps_sending s) (ps_writable s) in
+  let w := if negb (wq_full s1) then true
+           else if (match ps_pl s with [] => true | _ => false end) then false else ps_writable s in
+  (mkPush (ps_pl s) wq' n aq' (ps_sending s) w,
+   map Free (skipn n (ps_wq s)) ++ map (fun x => Complete (fst x) E_OK None) adm ++ [OptRv E_OK]).
+
+Definition push_step_r (fr : bool) (s : push) (o : pop) : push * list pout :=
+  match o with
+  | PSetOpt _ (OSendBuf n) =>
+      if fr && negb (8192 <? N.of_nat n)%N then push_resize_admit s n else push_step s o
+  | _ => push_step s o
+  end.
